@@ -5,7 +5,7 @@
 //           is the correctly rounded decimal with at most q fraction digits; fast_atof(text) / Field<fp_type>(text)
 //           is the double nearest to the decimal the text denotes.
 // part=int   (variant plain for the big sweep; variant san + fork=1 for a small set so that UB is seen too)
-//   space : magnitude blocks of 4096 values, both signs, |v| < 2^intbits (intbits=31: all 2^32 values incl. INT_MIN);
+//   space : magnitude blocks of `block` (4096) values, both signs, |v| < 2^intbits (intbits=31: all 2^32 values incl. INT_MIN);
 //           for intbits < 31 additionally an edge set: 2^e+d, 10^e+d (|d|<=2), both signs, 67 values at each end of
 //           the range, multiples of 65521 over the whole range.
 //   oracle: std::to_string(v) for the text; parse(text) == v.
@@ -56,41 +56,60 @@ template<typename F> static void bulk_viol(int cls, const char *clause, const ch
 static void bulk_flush() { for (auto& b : bulk) if (b.deferred) RP->counters[b.key] += b.deferred; }
 
 //----------------------------------------------------------------------------------------------------------------
-// run fn(obs, checkpoint) in a forked child; the child sends the observation record at every checkpoint, so that what was
-// observed before a fatal sanitizer report is still judged.  Returns the number of checkpoints that arrived; died = the
-// child did not finish, msg = normalised reason.  One child may run several cases (records carry their own case number).
-template<typename Obs, typename F, typename G> static int forked(Obs& o, bool& died, std::string& msg, F&& fn, G&& on_record)
+// The fix8 calls of crash-prone cases run in a forked worker process: the parent sends a request, the worker sends one
+// observation record per checkpoint (so what was observed before a fatal sanitizer report is still judged) and an end
+// marker.  A worker that dies is reaped, its sanitizer report normalised into `msg`, and the next request starts a new one.
+// (Forking an ASan process costs ~20 ms, hence one worker for many cases rather than one fork per case.)
+static std::string death_reason(const std::string& err, int st)
 {
-	int pd[2], pe[2]; died = true;
-	if (pipe(pd) || pipe(pe)) { msg = "harness:pipe-failed"; return 0; }
-	fflush(stdout); fflush(stderr);
-	pid_t pid = fork();
-	if (pid == 0) {
-		close(pd[0]); close(pe[0]); dup2(pe[1], 2);
-		fn(o, [&] { ssize_t w = write(pd[1], &o, sizeof o); (void)w; });
-		_exit(0);
-	}
-	close(pd[1]); close(pe[1]);
-	std::string err; char buf[4096]; ssize_t n;
-	Obs in; size_t got = 0; int stages = 0;
-	while ((n = read(pd[0], (char *)&in + got, sizeof in - got)) > 0) { got += n; if (got == sizeof in) { on_record(in); ++stages; got = 0; } }
-	while ((n = read(pe[0], buf, sizeof buf)) > 0) if (err.size() < 65536) err.append(buf, n);
-	close(pd[0]); close(pe[0]);
-	int st = 0; waitpid(pid, &st, 0);
-	if (WIFEXITED(st) && WEXITSTATUS(st) == 0) { died = false; return stages; }
-	// normalise like the driver does: kind of sanitizer report, numbers replaced
-	size_t p;
+	size_t p;	// normalise like the driver does: kind of sanitizer report, numbers replaced
 	if ((p = err.find("runtime error: ")) != std::string::npos) {
 		std::string m = err.substr(p + 15, err.find('\n', p) - p - 15), o2;
 		for (size_t i = 0; i < m.size(); ++i) { if (isdigit((unsigned char)m[i]) || (m[i] == '-' && i + 1 < m.size() && isdigit((unsigned char)m[i + 1]))) { if (o2.empty() || o2.back() != 'N') o2 += 'N'; } else o2 += m[i]; }
-		msg = "ubsan:" + o2.substr(0, 60);
-	} else if ((p = err.find("ERROR: AddressSanitizer: ")) != std::string::npos) {
-		size_t e = err.find_first_of(" \n", p + 25); msg = "asan:" + err.substr(p + 25, e - p - 25);
-	} else if (WIFSIGNALED(st)) msg = "signal:" + std::to_string(WTERMSIG(st));
-	else msg = "exit:" + std::to_string(WIFEXITED(st) ? WEXITSTATUS(st) : -1);
-	if (RP->verbose()) fprintf(stderr, "child died after %d checkpoint(s): %s\n%s\n", stages, msg.c_str(), err.substr(0, 1500).c_str());
-	return stages;
+		return "ubsan:" + o2.substr(0, 60);
+	}
+	if ((p = err.find("ERROR: AddressSanitizer: ")) != std::string::npos) { size_t e = err.find_first_of(" \n", p + 25); return "asan:" + err.substr(p + 25, e - p - 25); }
+	if (WIFSIGNALED(st)) return "signal:" + std::to_string(WTERMSIG(st));
+	return "exit:" + std::to_string(WIFEXITED(st) ? WEXITSTATUS(st) : -1);
 }
+template<typename Req, typename Obs> struct Worker {
+	pid_t pid = -1; int wfd = -1, rfd = -1, efd = -1; long long forks = 0;
+	struct Msg { char kind; Obs o; };	// 'R' record, 'E' end of request
+	static bool read_full(int fd, void *b, size_t n) { size_t g = 0; ssize_t r; while (g < n && (r = read(fd, (char *)b + g, n - g)) > 0) g += r; return g == n; }
+	// serve(req, obs&, checkpoint) runs in the worker; on_record(obs) in the parent.  false = the worker died (msg says how).
+	template<typename S, typename G> bool call(const Req& rq, std::string& msg, S&& serve, G&& on_record)
+	{
+		if (pid < 0) {
+			int a[2], b[2], c[2];
+			if (pipe(a) || pipe(b) || pipe(c)) { msg = "harness:pipe-failed"; return false; }
+			fflush(stdout); fflush(stderr);
+			++forks;
+			if ((pid = fork()) == 0) {
+				close(a[1]); close(b[0]); close(c[0]); dup2(c[1], 2);
+				Req r; static Msg m;
+				while (read_full(a[0], &r, sizeof r)) {
+					m.kind = 'R';
+					serve(r, m.o, [&] { ssize_t w = write(b[1], &m, sizeof m); (void)w; });
+					m.kind = 'E'; ssize_t w = write(b[1], &m, sizeof m); (void)w;
+				}
+				_exit(0);
+			}
+			close(a[0]); close(b[1]); close(c[1]); wfd = a[1]; rfd = b[0]; efd = c[0];
+		}
+		if (write(wfd, &rq, sizeof rq) == (ssize_t)sizeof rq) {
+			static Msg in;
+			while (read_full(rfd, &in, sizeof in)) { if (in.kind == 'E') return true; on_record(in.o); }
+		}
+		std::string err; char buf[4096]; ssize_t n;
+		while ((n = read(efd, buf, sizeof buf)) > 0) if (err.size() < 65536) err.append(buf, n);
+		close(wfd); close(rfd); close(efd);
+		int st = 0; waitpid(pid, &st, 0); pid = -1;
+		msg = death_reason(err, st);
+		if (RP->verbose()) fprintf(stderr, "worker died: %s\n%s\n", msg.c_str(), err.substr(0, 1500).c_str());
+		return false;
+	}
+	void stop() { if (pid > 0) { close(wfd); close(rfd); close(efd); int st; waitpid(pid, &st, 0); pid = -1; } }
+};
 static const auto no_checkpoint = [] {};
 
 //================================================================================================================
@@ -178,15 +197,19 @@ static void judge_int(int v, const std::string& ref, const IntObs& o, int stages
 			o.t_direct, o.n_direct, o.t_field, vh::show(o.t_enc).c_str(), o.p_direct, o.p_cstr, o.p_str, o.p_raw);
 }
 
+struct IntReq { int v; bool ext; };
+static Worker<IntReq, IntObs> int_worker;
 static inline void int_case(long long vv, bool ext)
 {
 	const int v = (int)vv;
 	const std::string ref = std::to_string(v);
 	IntObs o;
 	if (use_fork) {
-		std::string msg; bool died; memset(&o, 0, sizeof o);
-		const int stages = forked(o, died, msg, [&](IntObs& oo, auto&& cp) { observe_int(v, ref.c_str(), ext, oo, cp); }, [&](const IntObs& in) { o = in; });
-		judge_int(v, ref, o, died ? std::min(stages, 1) : 2, msg);
+		std::string msg; int stages = 0; memset(&o, 0, sizeof o);
+		const IntReq rq = { v, ext };
+		const bool alive = int_worker.call(rq, msg, [](const IntReq& r, IntObs& oo, auto&& cp) { observe_int(r.v, std::to_string(r.v).c_str(), r.ext, oo, cp); },
+			[&](const IntObs& in) { o = in; ++stages; });
+		judge_int(v, ref, o, alive ? 2 : std::min(stages, 1), msg);
 	} else {
 		observe_int(v, ref.c_str(), ext, o, no_checkpoint);
 		judge_int(v, ref, o, 2, "");
@@ -198,7 +221,7 @@ static int run_int(vh::Run& R)
 {
 	const int intbits = (int)R.args.num("intbits", 20);
 	const bool ext_all = R.args.num("extall", 0);
-	const long long BL = 4096;
+	const long long BL = std::max(1LL, R.args.num("block", 4096));
 	if (R.single) {
 		long long v = atoll(R.single_case.c_str() + 2);
 		R.begin_case(R.single_case);
@@ -217,7 +240,7 @@ static int run_int(vh::Run& R)
 			int_case(m, ext); ++R.evaluations;
 			if (m) { int_case(-m, ext); ++R.evaluations; }
 		}
-		if (b == 0) { R.sample("i:-4095", "block 0: all |v| < 4096, both signs; e.g. v=-4095: text \"-4095\", parse back -4095"); }
+		if (b == 0) R.sample("i:-12", "block 0: all |v| < block size, both signs; e.g. v=-12: text \"-12\", parse back -12");
 	}
 	if (intbits >= 31) {	// the one value with magnitude 2^31
 		if (R.mine(id)) { R.begin_case("i:-2147483648"); int_case(INT_MIN, true); R.sample("i:-2147483648", "INT_MIN"); }
@@ -243,6 +266,7 @@ static int run_int(vh::Run& R)
 		}
 	}
 	bulk_flush();
+	int_worker.stop(); if (use_fork) R.counters["worker_processes_started"] = int_worker.forks;
 	R.finish(true);
 	return 0;
 }
@@ -452,6 +476,8 @@ static void judge_flt(double v, int q, const FltObs& o, int stages, const std::s
 	}
 }
 
+struct FltReq { double v; int qlo, qhi; };
+static Worker<FltReq, FltObs> flt_worker;
 // one value at precisions qlo..qhi; case id = idbase + q
 static void flt_value(double v, int qlo, int qhi, long long idbase)
 {
@@ -461,17 +487,18 @@ static void flt_value(double v, int qlo, int qhi, long long idbase)
 		for (int q = qlo; q <= qhi; ++q) { announce(q); FltObs o; observe_flt(v, q, o, no_checkpoint); judge_flt(v, q, o, 3, "", rb); }
 		return;
 	}
-	// one child runs all remaining precisions; if it dies at precision c, what it sent is judged and a new child continues at c + 1
+	// the worker runs all remaining precisions; if it dies at precision c, what it sent is judged and a new worker continues at c + 1
 	while (qlo <= qhi) {
-		FltObs obs[10], scratch; int stages[10] = { 0 }; memset(obs, 0, sizeof obs);
-		std::string msg; bool died;
-		forked(scratch, died, msg, [&](FltObs& oo, auto&& cp) { for (int q = qlo; q <= qhi; ++q) observe_flt(v, q, oo, [&] { oo.q = q; cp(); }); },
+		static FltObs obs[10]; int stages[10] = { 0 }; memset(obs, 0, sizeof obs);
+		std::string msg;
+		const FltReq rq = { v, qlo, qhi };
+		const bool alive = flt_worker.call(rq, msg, [](const FltReq& r, FltObs& oo, auto&& cp) { for (int q = r.qlo; q <= r.qhi; ++q) observe_flt(r.v, q, oo, [&] { oo.q = q; cp(); }); },
 			[&](const FltObs& in) { if (in.q >= 0 && in.q <= 9) { obs[in.q] = in; ++stages[in.q]; } });
 		int q = qlo;
 		for (; q <= qhi; ++q) {
 			announce(q);
 			const bool complete = stages[q] == 3;
-			judge_flt(v, q, obs[q], complete ? 3 : std::min(stages[q], 2), complete ? "" : died ? msg : "harness:record-missing", rb);
+			judge_flt(v, q, obs[q], complete ? 3 : std::min(stages[q], 2), complete ? "" : !alive ? msg : "harness:record-missing", rb);
 			if (!complete) break;
 		}
 		qlo = q + 1;
@@ -549,6 +576,7 @@ static int run_float(vh::Run& R)
 				emit((double)W + ldexp((double)n, -k));
 	}
 	R.counters["lattice_values_generated"] = (R.shard_k == 0) ? vi : 0;
+	flt_worker.stop(); if (use_fork) R.counters["worker_processes_started"] = flt_worker.forks;
 	flush_outcomes();
 	R.finish(!stop);
 	return 0;
